@@ -256,6 +256,88 @@ func mutate(rt *rapid.T, in []byte, other []byte, label string) ([]byte, string)
 	}
 }
 
+// fieldMutate edits one field of one record inside a path export / proof (both are element lists of node records):
+// hash fields of boundary lengths, emptied keys, resized child references, extra or missing children.
+func fieldMutate(rt *rapid.T, in []byte, label string) ([]byte, string) {
+	var pt wmpt.PersistTrie
+	if cbor.Unmarshal(in, &pt) != nil || len(pt.Pairs) == 0 {
+		return in, "none"
+	}
+	i := gen.Uniform(rt, 0, len(pt.Pairs)-1, label+"el")
+	if pt.Pairs[i] == nil {
+		return in, "none"
+	}
+	var n wmpt.PersistNodeBase
+	if cbor.Unmarshal(pt.Pairs[i].Value, &n) != nil {
+		return in, "none"
+	}
+	resize := func(b []byte) []byte {
+		l := gen.Pick(rt, []int{0, 1, 31, 33, 39, 40, 41, 64}, label+"len")
+		out := make([]byte, l)
+		copy(out, b)
+		return out
+	}
+	what := ""
+	switch {
+	case n.Branch != nil:
+		switch gen.Uniform(rt, 0, 3, label+"bf") {
+		case 0:
+			n.Branch.Hash = resize(n.Branch.Hash)
+			what = "branch-hash-length"
+		case 1:
+			if len(n.Branch.Children) > 0 {
+				c := gen.Uniform(rt, 0, len(n.Branch.Children)-1, label+"c")
+				n.Branch.Children[c] = resize(n.Branch.Children[c])
+				what = "branch-child-length"
+			}
+		case 2:
+			n.Branch.Children = append(n.Branch.Children, make([]byte, 40))
+			what = "branch-extra-child"
+		default:
+			if len(n.Branch.Children) > 1 {
+				n.Branch.Children = n.Branch.Children[:len(n.Branch.Children)-1]
+				what = "branch-fewer-children"
+			}
+		}
+	case n.Short != nil:
+		switch gen.Uniform(rt, 0, 2, label+"sf") {
+		case 0:
+			n.Short.Hash = resize(n.Short.Hash)
+			what = "short-hash-length"
+		case 1:
+			n.Short.Key = resize(n.Short.Key)
+			what = "short-key-length"
+		default:
+			n.Short.Value = resize(n.Short.Value)
+			what = "short-child-ref-length"
+		}
+	case n.Value != nil:
+		if gen.Chance(rt, 50, label+"vf") {
+			n.Value.Hash = resize(n.Value.Hash)
+			what = "value-hash-length"
+		} else {
+			n.Value.Value = nil
+			what = "value-empty"
+		}
+	case n.HashNode != nil:
+		n.HashNode.Hash = resize(n.HashNode.Hash)
+		what = "hashnode-hash-length"
+	}
+	if what == "" {
+		return in, "none"
+	}
+	b, err := cbor.Marshal(&n)
+	if err != nil {
+		return in, "none"
+	}
+	pt.Pairs[i].Value = b
+	out, err := cbor.Marshal(&pt)
+	if err != nil {
+		return in, "none"
+	}
+	return out, "record-field:" + what
+}
+
 // branchWithBlobs builds a weighted branch record whose child blobs have arbitrary lengths.
 func branchWithBlobs(rt *rapid.T) []byte {
 	n := gen.Pick(rt, []int{16, 16, 16, 1, 15, 17, 40}, "nchildren")
@@ -306,6 +388,12 @@ func TestMutatedEncodings(t *testing.T) {
 			} else if gen.Chance(rt, 8, "arbitrary") {
 				in = rapid.SliceOfN(rapid.Byte(), 0, 24).Draw(rt, "bytes")
 				kinds = append(kinds, "arbitrary-bytes")
+			} else if (tg.name == "Deserialize" || tg.name == "VerifyBlockProof") && gen.Chance(rt, 45, "fieldmut") {
+				for i := gen.Uniform(rt, 1, 2, "nfm"); i > 0; i-- {
+					var k string
+					in, k = fieldMutate(rt, in, fmt.Sprintf("f%d", i))
+					kinds = append(kinds, k)
+				}
 			} else {
 				other := gen.Pick(rt, tg.pool, "other")
 				for i := gen.Uniform(rt, 1, 3, "nmut"); i > 0; i-- {
